@@ -34,6 +34,9 @@ uint64_t g_pread_offset;
 const uint8_t *g_pread_data;  /* where the file put the data                   */
 size_t g_pread_size;          /* how much it returned                          */
 uint8_t *g_map_base;          /* the file's own (mapped) memory, n+5 bytes     */
+int g_full;                   /* the file returned all n+5 bytes               */
+uint8_t g_type;               /* then: the block-type byte it returned (data[n])            */
+uint32_t g_stored;            /* and the stored (masked) crc, LE32(data+n+1)                */
 int g_crc_calls;
 uint32_t g_crc_z; const uint8_t *g_crc_p; size_t g_crc_n; uint32_t g_crc_ret;
 int g_dsz_calls; const uint8_t *g_dsz_p; size_t g_dsz_n; int g_dsz_ret; size_t g_dsz_len;
@@ -70,6 +73,11 @@ int ldb_rfile_pread(ldb_rfile_t *file, ldb_slice_t *result, void *buf, size_t co
   result->data = (uint8_t *)g_pread_data;
   result->size = g_pread_size;
   result->alloc = 0;
+  g_full = (g_pread_size == count && count >= 5);
+  if (g_full) {
+    g_type = g_pread_data[count - 5];
+    g_stored = LE32_AT(g_pread_data + (count - 4));
+  }
   return LDB_OK;
 }
 
@@ -162,7 +170,7 @@ void h_footer_write(void) {
 }
 
 void h_footer_read(void) {
-  IN_SIZE(in_n); ASSUME(in_n == 60); IN_BUF(buf, in_n); SNAP_BUF(buf, in_n);
+  IN_SIZE(in_n); IN_BUF(buf, in_n); SNAP_BUF(buf, in_n);
   ldb_footer_t f; const uint8_t *p = buf; size_t n = in_n; int r;
   r = ldb_footer_read(&f, &p, &n);
   CHECK(POST_FOOTER_READ_RET(r, buf, in_n), "footer_read: succeeds iff >= 48 bytes, magic at byte 40, two well-formed handles");
@@ -208,3 +216,82 @@ void h_footer_rt(void) {
         "footer: read(write(f)) = f for all 64-bit values");
   CANARY();
 }
+
+/* ============================================================== ReadBlock
+ * Contract of ldb_read_block over the ghost record of what the environment
+ * did.  n = handle->size; the file holds n data bytes, 1 type byte, 4 crc bytes.
+ */
+#ifndef VERIF_NATIVE
+#define RB_N (handle->size)
+#define RB_READ_OK (g_pread_calls == 1 && g_pread_rc == LDB_OK)
+#define RB_CRC_MATCH (SPEC_UNMASK(g_stored) == g_crc_ret)
+/* the point at which the block type is looked at */
+#define RB_TYPED (RB_READ_OK && g_full && (!options->verify_checksums || RB_CRC_MATCH))
+#define RB_EMPTY(res) ((res)->data.data == NULL && (res)->data.size == 0 && (res)->cachable == 0 && (res)->heap_allocated == 0)
+
+int c_read_block(ldb_contents_t *result, ldb_rfile_t *file, const ldb_readopt_t *options, const ldb_handle_t *handle)
+__CPROVER_requires(__CPROVER_w_ok(result, sizeof(*result)) && __CPROVER_r_ok(options, sizeof(*options)) && __CPROVER_r_ok(handle, sizeof(*handle)))
+__CPROVER_requires(file == &g_the_rfile && (g_mapped == 0 || g_mapped == 1))
+__CPROVER_requires(g_mapped ==> (handle->size <= SIZE_MAX - 5 && __CPROVER_r_ok(g_map_base, handle->size + 5)))
+__CPROVER_requires(g_pread_calls == 0 && g_crc_calls == 0 && g_dsz_calls == 0 && g_dec_calls == 0 && g_full == 0)
+__CPROVER_assigns(*result, g_pread_calls, g_pread_rc, g_pread_buf, g_pread_count, g_pread_offset, g_pread_data, g_pread_size, g_full, g_type, g_stored,
+                  g_crc_calls, g_crc_z, g_crc_p, g_crc_n, g_crc_ret, g_dsz_calls, g_dsz_p, g_dsz_n, g_dsz_ret, g_dsz_len,
+                  g_dec_calls, g_dec_zp, g_dec_p, g_dec_n, g_dec_ret)
+/* size + 5 must not wrap: rejected before anything is read */
+__CPROVER_ensures(RB_N > SIZE_MAX - 5 ==> (__CPROVER_return_value == LDB_CORRUPTION && g_pread_calls == 0))
+/* exactly n + 5 bytes are requested at handle->offset */
+__CPROVER_ensures(g_pread_calls == 1 ==> (RB_N <= SIZE_MAX - 5 && g_pread_count == RB_N + 5 && g_pread_offset == handle->offset))
+__CPROVER_ensures(g_pread_calls <= 1 && (RB_N <= SIZE_MAX - 5 && __CPROVER_return_value != LDB_ENOMEM ==> g_pread_calls == 1))
+/* read error propagated; short read is an I/O error */
+__CPROVER_ensures(g_pread_calls == 1 && g_pread_rc != LDB_OK ==> __CPROVER_return_value == g_pread_rc)
+__CPROVER_ensures(RB_READ_OK && !g_full ==> __CPROVER_return_value == LDB_IOERR)
+/* checksum: the stored crc, unmasked, is compared with crc32c(data[0 .. n]) = contents and type byte */
+__CPROVER_ensures(RB_READ_OK && g_full && options->verify_checksums ==>
+                  (g_crc_calls == 1 && g_crc_z == 0 && g_crc_p == g_pread_data && g_crc_n == RB_N + 1))
+__CPROVER_ensures(RB_READ_OK && g_full && options->verify_checksums && !RB_CRC_MATCH ==> __CPROVER_return_value == LDB_CORRUPTION)
+__CPROVER_ensures(!options->verify_checksums ==> g_crc_calls == 0)
+/* block type: 0 = raw, 1 = snappy, anything else is corruption */
+__CPROVER_ensures(RB_TYPED && g_type != 0 && g_type != 1 ==> __CPROVER_return_value == LDB_CORRUPTION)
+__CPROVER_ensures(__CPROVER_return_value == LDB_OK ==> (RB_TYPED && (g_type == 0 || g_type == 1)))
+/* raw block: the n data bytes the file returned; the result owns them iff they sit in the scratch buffer */
+__CPROVER_ensures(RB_TYPED && g_type == 0 ==> (__CPROVER_return_value == LDB_OK && result->data.data == g_pread_data && result->data.size == RB_N &&
+                  result->heap_allocated == (g_mapped ? 0 : 1) && result->cachable == (g_mapped ? 0 : 1) && g_dsz_calls == 0 && g_dec_calls == 0))
+__CPROVER_ensures(RB_TYPED && g_type == 0 && !g_mapped ==> (result->data.data == g_pread_buf && __CPROVER_rw_ok(result->data.data, RB_N + 5)))
+/* snappy block: decode_size then decode, both on (data, n); result = fresh buffer of the announced size, owned */
+__CPROVER_ensures(RB_TYPED && g_type == 1 ==> (g_dsz_calls == 1 && g_dsz_p == g_pread_data && g_dsz_n == RB_N))
+__CPROVER_ensures(RB_TYPED && g_type == 1 && !g_dsz_ret ==> (__CPROVER_return_value == LDB_CORRUPTION && g_dec_calls == 0))
+__CPROVER_ensures(RB_TYPED && g_type == 1 && g_dec_calls == 1 ==> (g_dsz_ret && g_dec_p == g_pread_data && g_dec_n == RB_N))
+__CPROVER_ensures(RB_TYPED && g_type == 1 && g_dec_calls == 1 && !g_dec_ret ==> __CPROVER_return_value == LDB_CORRUPTION)
+__CPROVER_ensures(RB_TYPED && g_type == 1 && g_dsz_ret && g_dec_calls == 0 ==> __CPROVER_return_value == LDB_ENOMEM)
+__CPROVER_ensures(RB_TYPED && g_type == 1 && g_dec_calls == 1 && g_dec_ret ==> (__CPROVER_return_value == LDB_OK && result->data.data == g_dec_zp &&
+                  result->data.size == g_dsz_len && result->heap_allocated == 1 && result->cachable == 1 &&
+                  (g_dsz_len == 0 || __CPROVER_rw_ok(result->data.data, g_dsz_len))))
+/* any failure: empty contents, nothing for the caller to free (leaks are excluded by --memory-leak-check) */
+__CPROVER_ensures(__CPROVER_return_value != LDB_OK ==> RB_EMPTY(result))
+__CPROVER_ensures(__CPROVER_return_value == LDB_OK || __CPROVER_return_value == LDB_CORRUPTION || __CPROVER_return_value == LDB_IOERR ||
+                  __CPROVER_return_value == LDB_ENOMEM || (g_pread_calls == 1 && __CPROVER_return_value == g_pread_rc))
+;
+
+void h_read_block(void) {
+  ldb_contents_t res; ldb_readopt_t opt; ldb_handle_t h; int rc;
+  IN_U64(in_size); IN_U64(in_offset); IN_INT(in_verify); IN_INT(in_mapped);
+  h.offset = in_offset; h.size = in_size;
+  opt.verify_checksums = in_verify; opt.fill_cache = nondet_int(); opt.snapshot = NULL;
+  g_mapped = in_mapped ? 1 : 0;
+  g_map_base = NULL;
+  if (g_mapped) {
+    ASSUME(in_size <= SIZE_MAX - 5); /* a mapped file hands out pointers into its mapping: the mapping exists */
+    g_map_base = malloc(in_size + 5);
+    ASSUME(g_map_base != NULL);
+  }
+  g_pread_calls = 0; g_crc_calls = 0; g_dsz_calls = 0; g_dec_calls = 0; g_full = 0; g_pread_rc = 0; g_pread_size = 0;
+  g_dsz_ret = 0; g_dec_ret = 0; g_pread_buf = NULL; g_pread_data = NULL; g_dec_zp = NULL;
+  rc = ldb_read_block(&res, &g_the_rfile, &opt, &h);
+  /* the caller's side of the ownership protocol: free exactly what the flags say; then nothing may be left (--memory-leak-check) */
+  if (rc == LDB_OK && res.heap_allocated)
+    free(res.data.data);
+  if (g_map_base != NULL)
+    free(g_map_base);
+  CANARY();
+}
+#endif
